@@ -1,7 +1,7 @@
 # C07: the symbolic machine's state equals sequential execution of the lifted
 # semantics, including overlapping memory.  Refinement check of the real
 # eval_abs / emul_helper against refmodel.RefMachine.  See DESIGN.md 4.3.
-import hashlib, json, random
+import hashlib, json, random, re
 from . import core, canon, refmodel
 from .sim_calls import sut, install_budget, reset_budget, Budget
 
@@ -749,7 +749,17 @@ def gen_string_program(rng, base):
         ins('mov ecx, %d' % (rng.choice([0x101, 0x120]) if rng.random() < 0.015 else rng.choice([0, 1, 2, 3, 4, 5, 8])))
         if rng.random() < 0.3:
             ins('mov eax, %d' % rng.choice([0x41, 0x41424344, 0]))
-        ins('rep ' + rng.choice(['movs', 'movs', 'stos', 'lods']) + sfx)
+        pfx = 'rep '
+        if rng.random() < 0.3:
+            # the other repeat prefix (F2) on a non-comparing string instruction is a plain rep, whatever zf holds
+            pfx = 'repne '
+            z = rng.random()
+            if z < 0.5:
+                ins('xor edx, edx')                    # zf = 1, concretely
+            elif z < 0.75:
+                ins('mov edx, 1')
+                ins('test edx, edx')                   # zf = 0
+        ins(pfx + rng.choice(['movs', 'movs', 'stos', 'lods']) + sfx)
     elif kind < 0.75:
         # repe/repne cmps/scas over concrete bytes
         for k in range(0, 8, 4):
@@ -771,7 +781,16 @@ def gen_string_program(rng, base):
             else:
                 ins('mov edx, %d' % rng.choice([0, 5]))
                 ins('cmp edx, 5')
-        ins(rng.choice(['repe', 'repne']) + ' ' + rng.choice(['cmps', 'scas']) + rng.choice(['b', 'b', 'w', 'd']))
+        if rng.random() < 0.25:
+            # the same instruction as raw bytes with ANOTHER legacy prefix in front of the repeat prefix (a segment
+            # override or a redundant second one): the repeat prefix is then not the first prefix byte
+            rp = rng.choice([0xf3, 0xf2])
+            opc = rng.choice([0xa6, 0xa7, 0xae, 0xaf])
+            pre = rng.choice([[0x2e], [0x3e], [0x26], [0x3e, 0x2e]])
+            order = pre + [rp] if rng.random() < 0.7 else [rp] + pre
+            ops.append({'op': 'insn', 'line': 'bytes', 'hex': bytes(order + [opc]).hex()})
+        else:
+            ins(rng.choice(['repe', 'repne']) + ' ' + rng.choice(['cmps', 'scas']) + rng.choice(['b', 'b', 'w', 'd']))
     else:
         for _ in range(rng.randrange(1, 4)):
             ins(rng.choice(['movs', 'stos', 'lods']) + rng.choice(['b', 'w', 'd']))
@@ -916,6 +935,14 @@ def gen_history(rng):
             c1, c2 = rng.sample([3, 5, 6, 0x7f, 0xff, 0x81, 0x100, 0x101, 0xf0f0, 0x80000001], 2)
             at = rng.randrange(0, len(lines) + 1)
             lines[at:at] = ['%s %s, %d' % (opn, dst, c & ((1 << w) - 1)) for c in (c1, c2)]
+        if base == 'const' and rng.random() < 0.3:
+            # absolute operands (ds:[disp32]) instead of the register that holds the constant base
+            def absolutise(line):
+                mm = re.search(r'\[ebx([+-]\d+)?\]', line)
+                if mm is None or line.startswith('lea'):
+                    return line
+                return line[:mm.start()] + '[%d]' % (CONST_BASE + int(mm.group(1) or 0)) + line[mm.end():]
+            lines = [absolutise(l) for l in lines]
         if style == 'block':
             if rng.random() < 0.4:
                 # the get-PC idiom: a call to the next instruction inside a block (pushes the address of what follows)
